@@ -122,6 +122,18 @@ def b_sorted(reg, eng, st, args, kwargs, node):
     if "reverse" in kwargs:
         if not getattr(eng, "allow_sorted_key", False):
             raise OutOfSubset("sorted with reverse")
+    if eng.c is not None and "sorted_as_seq" in getattr(eng.c, "opts", ()) and "lex_le" in reg.specfuns and sort_of(m.t[1]) == sort_of(("node",)):
+        # sorted(names): a sequence with the same elements (index form, both directions), ordered by the (assumed total) order lex_le of str
+        et = m.t[1]
+        res = fresh(("seq", et), "sorted")
+        n = z3.Length(res.x)
+        x = z3.Const(fresh_name("e"), sort_of(et))
+        j, k = z3.Int(fresh_name("j")), z3.Int(fresh_name("k"))
+        st.assume(z3.ForAll([j], z3.Implies(z3.And(0 <= j, j < n), z3.Select(m.x, res.x[j]))))
+        st.assume(z3.ForAll([x], z3.Implies(z3.Select(m.x, x), z3.Exists([j], z3.And(0 <= j, j < n, res.x[j] == x)))))
+        le = lambda a, b: eng.truth(reg.specfuns["lex_le"](eng, st, from_term(et, a), from_term(et, b)))
+        st.assume(z3.ForAll([j, k], z3.Implies(z3.And(0 <= j, j < k, k < n), le(res.x[j], res.x[k]))))
+        return [(st, res)]
     # bag view: same elements, order abstracted away (callers may only use it as a collection)
     return [(st, V(("bag", m.t[1]), m.x))]
 
@@ -150,6 +162,13 @@ def b_all(reg, eng, st, args, kwargs, node):
 
 def b_map(reg, eng, st, args, kwargs, node):
     f, v = args
+    if f.t[0] == "boundmethod" and isinstance(node, ast.Call) and len(node.args) == 2:
+        # map(obj.method, xs) is the generator (obj.method(x) for x in xs): the callee's contract is applied per element (raising contracts included)
+        g = ast.GeneratorExp(elt=ast.Call(func=node.args[0], args=[ast.Name(id="map!x", ctx=ast.Load())], keywords=[]),
+                             generators=[ast.comprehension(target=ast.Name(id="map!x", ctx=ast.Store()), iter=node.args[1], ifs=[], is_async=0)])
+        ast.copy_location(g, node)
+        ast.fix_missing_locations(g)
+        return reg.comprehension(eng, g, st, "bag")
     if f.t[0] != "closure":
         raise OutOfSubset("map with non-lambda")
     if v.t[0] in ("list", "tuple"):
@@ -594,8 +613,17 @@ def m_split(reg, eng, st, recv, args, kwargs, node, rexpr):
 
 
 def m_str_replace(reg, eng, st, recv, args, kwargs, node, rexpr):
+    if len(args) != 2 or kwargs or any(x.t[0] != "str" for x in (recv,) + tuple(args)):
+        raise OutOfSubset("str.replace with a count / non-string arguments")
     a, b = args
-    return [(st, vstr(reg.replace_all_fn(eng, st, recv, a, b)))]
+    # Python's s.replace(a, b) replaces EVERY non-overlapping occurrence, left to right: SMT-LIB str.replace_all (for a == "" Python inserts b between all
+    # characters while str.replace_all leaves s unchanged: refused)
+    s_empty = st.fork()
+    s_empty.assume(a.x == z3.StringVal(""))
+    if feasible(s_empty):
+        raise OutOfSubset("str.replace with a possibly empty pattern")
+    ctx = recv.x.ctx
+    return [(st, vstr(z3.SeqRef(z3.Z3_mk_seq_replace_all(ctx.ref(), recv.x.as_ast(), a.x.as_ast(), b.x.as_ast()), ctx)))]
 
 
 METHODS = {
